@@ -6,11 +6,11 @@ environment-dependent and state-dependent outcomes were written from, re-extract
 tree on every run (`specs/e3_audit09.json` → `Nsq.Gen.ProtoAudit`). The behavioural tie is the
 correspondence leg `iox` (harness/e3/audit09_test.go); these facts pin the guards the model mirrors.
 
-`newTickerOptionChecks` has exactly two accepted shapes: none (the tree before
-fixes/F31_validate_ticker_options.patch — `Model.ProtoEnv.newAccepts false`) and the two checks of the
-patch (`newAccepts true`). `props/C09.py` reads which one the tree has and replays the witness
-accordingly (KNOWN-FINDING while unfixed; a daemon that still dies once the checks are there is a
-VIOLATION).
+`newTickerOptionChecks`: F31 is committed (/repo a24e9f3), so ONLY the two checks of the patch are accepted
+(`Model.ProtoEnv.newAccepts true`; audit B12). The shape before it (no check: `newAccepts false`,
+`Props.C09Audit.options_never_kill_unchecked_false`) breaks this tie, and `props/C09.py`'s subprocess leg
+then reports `ticker-option-kills-daemon` (listed `fixed`) as a VIOLATION with the option value that kills
+the daemon.
 -/
 namespace Nsq.Tie.ProtoAudit
 open Nsq.Model.ProtoEnv
@@ -85,9 +85,11 @@ def treeChecksTickerOptions : Bool :=
     ["if opts.OutputBufferTimeout <= 0", "if opts.ClientTimeout/2 <= 0"]
 
 theorem newTickerOptionChecks_shape_known :
-    Nsq.Gen.ProtoAudit.newTickerOptionChecks = [] ∨
     Nsq.Gen.ProtoAudit.newTickerOptionChecks =
       ["if opts.OutputBufferTimeout <= 0", "if opts.ClientTimeout/2 <= 0"] := by decide
+
+/-- the `checked` parameter of `firstConnection` / `OptionsNeverKill` for this tree is `true` -/
+theorem tree_checks_ticker_options : treeChecksTickerOptions = true := by decide
 
 /-- The model's check is the patch's: `d <= 0` and `d/2 <= 0` refuse. -/
 theorem newAccepts_mirrors_checks (o : Opts) :
